@@ -211,6 +211,8 @@ func c03Render(p *Program, env c03Env) (Obs, *simrt.World) {
 	saved := twig.VerifSwapGlobals(nil)
 	defer twig.VerifSwapGlobals(saved)
 	e := twig.New()
+	installSandbox(e)
+	installGlobals(e)
 	for _, t := range p.Templates {
 		e.RegisterString(t.Name, t.Src())
 	}
